@@ -112,16 +112,17 @@ Fixpoint additive (e : edit) : bool :=
   end.
 
 (* the flat view (get_all_edits): leaves of the script with non-zero cost *)
+Definition nz (c : Z) : list Z := if c =? 0 then [] else [c].
 Fixpoint flat_costs (e : edit) : list Z :=
   match e with
-  | EMatch c | EReplace c => if 0 <? c then [c] else []
-  | EStr c _ => if 0 <? c then [c] else []
+  | EMatch c | EReplace c => nz c
+  | EStr c _ => nz c
   | EComp _ _ subs =>
       (fix go (ss : list sub) : list Z :=
          match ss with
          | [] => []
          | SPair _ _ e' :: ss' => flat_costs e' ++ go ss'
-         | SRem _ c :: ss' | SIns _ c :: ss' => (if 0 <? c then [c] else []) ++ go ss'
+         | SRem _ c :: ss' | SIns _ c :: ss' => nz c ++ go ss'
          end) subs
   end.
 
